@@ -8,17 +8,66 @@ GOENV = "PATH=/opt/veriftools/go1.26.8/bin:$PATH GOTOOLCHAIN=local GOFLAGS=-mod=
 SETUP = f"cd /verif/engine && {GOENV} go build -o /verif/bin/vcheck ./cmd/vcheck"
 
 # id -> (engine, category, technique, level text, level note, design ref)
+TECH_A = "bounded symbolic execution of go/ssa (own SSA->SMT-LIB2 interpreter, z3) with native replay"
+TECH_B = "bounded model checking of an SSA-derived transition relation with a symbolic schedule (own encoder, z3), interpreter replay"
+LEMMA = "Transition-level lemmas only: the composition from per-transition lemmas to the history/schedule-quantified statement is argued in DESIGN.md and is not machine-checked. "
 CLAIMED = {
- "C02": ("symgo", "model_checking",
-  "bounded symbolic execution of go/ssa (own SSA->SMT-LIB2 interpreter, z3) with native replay",
-  "Bounded symbolic execution of the real ring buffer against a reference FIFO: all operation sequences of length L from New(size) for sizes 1..4, and one inductive Push/Pop/PopMany step from every valid ring state of capacity <= maxmod (head/tail phases case-split, payloads symbolic). A pass means: no input within these bounds violates FIFO order, Length(), or the ring invariant; counterexamples are replayed natively before being reported.",
-  "Bounds L, size, maxmod as recorded in evidence; sync.Mutex and sync/atomic modelled in the engine; sequential (one schedule) — ordering under concurrent senders is not decided by this job set.",
+ "C01": ("tsgen", "model_checking", TECH_B,
+  "The real Enqueue/Pause/Resume/process/processHandle SSA is compiled into a pc-indexed transition relation and unrolled K steps with the schedule as solver variables: every interleaving (at atomic-operation granularity) of <=3 caller threads and the dynamically spawned consumer goroutines within K steps is covered for: one handler at a time, no message handled twice, no Pop-from-empty panic, every accepted message handled at quiescence without a later send, pause/resume semantics, handler re-entrancy, and termination of the consumer when nothing may be processed (no spin).",
+  "Bounds K, goroutine pool, <=3 messages (evidence lists them and whether some schedule is not quiescent at K); ring buffer replaced by a FIFO summary justified by C02; sequential consistency for sync/atomic; counterexamples confirmed by replaying the schedule on the real SSA in the interpreter (not natively).",
+  "DESIGN.md §3 C01, §2.2"),
+ "C02": ("symgo+tsgen", "model_checking", TECH_A + "; per-sender order under concurrency: " + TECH_B,
+  "Ring buffer against a reference FIFO: all operation sequences of length L from New(size), sizes 1..4, plus one inductive Push/Pop/PopMany step from every valid ring state of capacity <= maxmod (payloads symbolic); stash/unstash order and the kill flag on the real Context; per-sender FIFO for two messages of one sender racing a second sender under every interleaving within K steps (tsgen).",
+  "Bounds L, size, maxmod, K in evidence; sync.Mutex and sync/atomic modelled in the engine.",
   "DESIGN.md §3 C02"),
- "C16": ("symgo", "model_checking",
-  "bounded symbolic execution of go/ssa (own SSA->SMT-LIB2 interpreter, z3) with native replay",
-  "Every lattice law of the statement is an assertion over symbolic 64-bit counters and enumerated presence patterns (nil map / absent / explicit zero / present) for vectors over k node ids; Compare is checked against the point-wise order under every map iteration order. The solver decides feasibility of each comparison outcome combination and discharges the assertions; within the id-universe bound the claim covers all counter values.",
-  "Universe of k ids (quick 2, thorough 3); counters <= 2^63-1 as documented; concrete node-id strings; stubs listed in evidence.",
+ "C03": ("symgo", "model_checking", TECH_A,
+  LEMMA + "One send over the product reference provenance x target state on the real tell/findMailbox/HandleEnvelop/guard/eventStream code: exactly one fate (processed, stashed, one dead letter); bounded work after system stop.",
+  "One deterministic delivery schedule; recording mailboxes; the (provenance, state) cells are enumerated by hand.",
+  "DESIGN.md §3 C03"),
+ "C05": ("symgo", "model_checking", TECH_A,
+  LEMMA + "Dead actors run nothing; restart under every hook-outcome combination (fresh instance, behaviour reset, exactly one OnLaunch to the restarted actor only, zombie on hook failure); OnLaunch first and prelaunch failure on the real ActorOf.",
+  "One deterministic delivery schedule; small trees; hooks modelled by harness actors.",
+  "DESIGN.md §3 C05"),
+ "C06": ("symgo", "model_checking", TECH_A,
+  LEMMA + "Kill (poison symbolic, optionally repeated) of an actor with 0..2 children, a grandchild, 0..2 watchers, subscription and scheduled job: subtree terminated children-first, each notice/event exactly once, path released and reusable, subscriptions and jobs gone.",
+  "One deterministic delivery schedule; concurrent kills and kills racing spawns are outside.",
+  "DESIGN.md §3 C06"),
+ "C08": ("symgo", "model_checking", TECH_A,
+  LEMMA + "Every decision x {one-for-one, one-for-all} x {panic, Failed} with a sibling subtree and a bystander, run to quiescence on the real supervision code: strategy consulted once, exactly the targets touched, directive semantics, escalation ends in default stop, no supervision while stopping.",
+  "One deterministic delivery schedule; chain depth 1; repeated failures outside.",
+  "DESIGN.md §3 C08"),
+ "C09": ("symgo", "model_checking", TECH_A,
+  LEMMA + "Same runs as C08 plus restart-hook failures: no survivor left paused or with undelivered mail, later mail processed, queued burst delivered in order around restart/resume, zombie semantics, mailbox commands.",
+  "One deterministic delivery schedule; mailbox part under concurrency is C01.",
+  "DESIGN.md §3 C09"),
+ "C11": ("symgo", "model_checking", TECH_A,
+  "Framing layer: F frames with symbolic bodies through the real onReadConn/bufio/io.ReadFull/decode path over a fake connection whose reads are segmented at every feasible length (coalescing and splitting explored): every body exactly once, intact, in order, sender designates the original; 4 MiB boundary job.",
+  "F<=3 frames, bodies <=2 bytes, bounded number of short reads; real sockets/TLS/concurrent senders outside.",
+  "DESIGN.md §3 C11"),
+ "C12": ("symgo", "model_checking", TECH_A,
+  "For every message type in the wire registry: symbolic value (full-width integers, strings/bytes of every length 0..maxlen with symbolic content, nested payloads, valid refs) -> real EncodeEnvelopWithRemoting -> real DecodeEnvelopWithRemoting -> field-wise equality and unchanged envelope metadata; primitive writer/reader agreement for every supported type incl. varints, reflection path and length-prefix boundaries; registry coverage guard.",
+  "Size bounds as in evidence; int fields that travel as int32 assumed in range; time.Time abstracted to UnixNano.",
+  "DESIGN.md §3 C12"),
+ "C13": ("symgo", "model_checking", TECH_A,
+  "Every registered reader, the envelope decoder, ReadMessage, the version-vector/node-state/view readers, the primitive and reflective Reader and the handshake on every byte string of length 0..N with all bytes symbolic: every runtime panic site and every allocation size is a solver query; every truncation and single-byte corruption of valid envelopes; encoding of unsupported values returns an error (stack depth bounded); pooled readers/writers are clean.",
+  "Input length bounds per decoder in evidence; allocation budget 65536 elements; representative values for large sizes.",
+  "DESIGN.md §3 C13"),
+ "C14": ("symgo", "model_checking", TECH_A,
+  "Receiver: connection cut after every byte offset (EOF or error), optional undecodable frame: delivered = exactly the decodable frames completely before the cut, intact, in order, once; actor stops. Sender: write-failure schedule x reconnect limit on the real Enqueue/backoff path: written xor dead-lettered, recovery, encode failure not retried, caller not put to sleep (open known finding).",
+  "F=2..3 frames; re-dial refused; time.Sleep recorded by stub / measured natively.",
+  "DESIGN.md §3 C14"),
+ "C16": ("symgo", "model_checking", TECH_A,
+  "Every lattice law of the statement is an assertion over symbolic 64-bit counters and enumerated presence patterns (nil map / absent / explicit zero / present) for vectors over k node ids; Compare is checked against the point-wise order under every map iteration order.",
+  "Universe of k ids (quick 2, thorough 3); counters <= 2^63-1 as documented; concrete node-id strings.",
   "DESIGN.md §3 C16"),
+ "C17": ("symgo", "model_checking", TECH_A,
+  "Real MergeFromWithOptions/AddMember/Snapshot/IsNewerThan on arbitrary reachable views over k member ids with symbolic generations, clocks, timestamps, epochs, counters, skew option and strategy: union, newest incarnation, no regression, monotone epoch and member version-vector entries, changed flag, commutative/idempotent/associative on membership, clones.",
+  "Reachability predicate of views (LogicalClock>=1, VV mentions only members, ...); k ids; membership and epoch dimensions in separate jobs.",
+  "DESIGN.md §3 C17"),
+ "C19": ("symgo", "model_checking", TECH_A,
+  "Every sequence of L operations {Subscribe, Unsubscribe, UnsubscribeAll, Publish} x 2 subscribers x 2 event types on the real eventStream against a reference set; termination removes, restart keeps subscriptions.",
+  "L<=4; sequential (atomicity by the RWMutex is not explored as schedules).",
+  "DESIGN.md §3 C19"),
 }
 
 NA = {
